@@ -58,6 +58,11 @@ func execReplay(repo, module, pkgDir, src string) *ReplayResult {
 	ctx, cancel := context.WithTimeout(context.Background(), 180*time.Second)
 	defer cancel()
 	args := []string{"test", "-overlay", ovf, "-tags", "verif", "-vet=off", "-count=1", "-timeout", "60s", "-run", "TestVerifReplay", "./" + pkgDir}
+	raceRun := strings.Contains(src, "// govc:race")
+	if raceRun {
+		// the replay demonstrates a data race: run it under the Go race detector
+		args = append([]string{"test", "-race"}, args[1:]...)
+	}
 	cmd := exec.CommandContext(ctx, "go", args...)
 	cmd.Dir = filepath.Join(repo, module)
 	cmd.Env = goEnv()
@@ -67,6 +72,16 @@ func execReplay(repo, module, pkgDir, src string) *ReplayResult {
 	out := buf.String()
 	r := &ReplayResult{Module: module, Pkg: pkgDir, TestFile: src, Cmd: "cd " + cmd.Dir + " && go " + strings.Join(args, " "), Output: truncate(out, 3000)}
 	switch {
+	case raceRun && strings.Contains(out, "WARNING: DATA RACE"):
+		r.Confirmed = true
+		var frames []string
+		for _, l := range strings.Split(out[strings.Index(out, "WARNING: DATA RACE"):], "\n") {
+			l = strings.TrimSpace(l)
+			if strings.HasPrefix(l, "github.com/iotaledger/hive.go/") && len(frames) < 4 {
+				frames = append(frames, l)
+			}
+		}
+		r.Summary = "REPLAY-VIOLATION data race reported by the Go race detector: " + strings.Join(frames, " <- ")
 	case strings.Contains(out, "REPLAY-VIOLATION"):
 		r.Confirmed = true
 		m := regexp.MustCompile(`REPLAY-VIOLATION[^\n]*`).FindString(out)
@@ -2227,3 +2242,310 @@ func TestVerifReplay(t *testing.T) {
 `
 	return "ds", "reactive", src, true
 }
+
+// ---------- C14 (derived reactive values) ----------
+func init() { replayGens["c14"] = replayC14 }
+
+func replayC14(o *Obligation) (string, string, string, bool) {
+	if !strings.HasPrefix(o.Name, "reactive.") {
+		return "", "", "", false
+	}
+	if strings.Contains(o.Name, "cbarg.anytime") {
+		return "ds", "reactive", replayC14Race, true
+	}
+	src := `package reactive
+
+import (
+	"math/rand"
+	"sort"
+	"sync"
+	"testing"
+	"time"
+
+	"github.com/iotaledger/hive.go/ds"
+)
+
+type rpChain struct {
+	id     int
+	weight Variable[int]
+}
+
+// oracle: after every step of a random history the derived value equals its defining function of the inputs
+func TestVerifReplay(t *testing.T) {
+	fail := func(format string, a ...any) { t.Fatalf("REPLAY-VIOLATION "+format, a...) }
+	within := func(d time.Duration, what string, f func()) {
+		done := make(chan struct{})
+		go func() { f(); close(done) }()
+		select {
+		case <-done:
+		case <-time.After(d):
+			fail("%s does not return", what)
+		}
+	}
+
+	// (1) EvictionState: events of slots up to the evicted one are triggered, exactly those; the largest slot value
+	{
+		e := NewEvictionState[uint8]()
+		ev255, ev7 := e.EvictionEvent(255), e.EvictionEvent(7)
+		within(2*time.Second, "Evict(7) on an EvictionState[uint8]", func() { e.Evict(7) })
+		if !ev7.WasTriggered() || ev255.WasTriggered() {
+			fail("Evict(7): event of slot 7 triggered %v, event of slot 255 triggered %v", ev7.WasTriggered(), ev255.WasTriggered())
+		}
+		within(2*time.Second, "Evict(255) on an EvictionState[uint8] (the slot counter wraps around)", func() { e.Evict(255) })
+		if !ev255.WasTriggered() || e.LastEvictedSlot() != 255 {
+			fail("Evict(255): event triggered %v, last evicted slot %d", ev255.WasTriggered(), e.LastEvictedSlot())
+		}
+		rng := rand.New(rand.NewSource(3))
+		for round := 0; round < 200; round++ {
+			es := NewEvictionState[int]()
+			events := map[int][]Event{}
+			last := -1
+			for step := 0; step < 10; step++ {
+				slot := rng.Intn(12)
+				if rng.Intn(2) == 0 {
+					ev := es.EvictionEvent(slot)
+					if (slot <= last) != ev.WasTriggered() {
+						fail("EvictionEvent(%d) with last evicted slot %d: triggered = %v", slot, last, ev.WasTriggered())
+					}
+					events[slot] = append(events[slot], ev)
+				} else {
+					es.Evict(slot)
+					if slot > last {
+						last = slot
+					}
+					for s, evs := range events {
+						for _, ev := range evs {
+							if ev.WasTriggered() != (s <= last) {
+								fail("after Evict(%d) (last evicted %d): event handed out for slot %d has triggered = %v", slot, last, s, ev.WasTriggered())
+							}
+						}
+					}
+				}
+			}
+		}
+	}
+
+	// (2) WaitGroup: triggered when and only when the last pending element is marked done
+	{
+		rng := rand.New(rand.NewSource(4))
+		for round := 0; round < 300; round++ {
+			w := NewWaitGroup[int]()
+			pending := map[int]bool{}
+			should := false
+			desc := ""
+			for step := 0; step < 8; step++ {
+				k := rng.Intn(4)
+				if rng.Intn(2) == 0 {
+					w.Add(k)
+					if !should {
+						pending[k] = true
+					} else {
+						pending[k] = true
+					}
+					desc += "Add "
+				} else {
+					had := pending[k]
+					w.Done(k)
+					delete(pending, k)
+					if had && len(pending) == 0 {
+						should = true
+					}
+					desc += "Done "
+				}
+				if w.WasTriggered() != should {
+					fail("WaitGroup history %s(last element %d): triggered = %v, but the last pending element was marked done: %v (pending now %d)", desc, k, w.WasTriggered(), should, len(pending))
+				}
+				if w.PendingElements().Size() != len(pending) {
+					fail("WaitGroup history %s: %d pending elements, model has %d", desc, w.PendingElements().Size(), len(pending))
+				}
+			}
+		}
+	}
+
+	// (3) Counter: number of monitored inputs that currently satisfy the condition
+	{
+		rng := rand.New(rand.NewSource(5))
+		for round := 0; round < 200; round++ {
+			c := NewCounter[int](func(v int) bool { return v%2 == 1 })
+			var inputs []Variable[int]
+			for step := 0; step < 12; step++ {
+				if len(inputs) == 0 || rng.Intn(4) == 0 {
+					v := NewVariable[int]().Init(rng.Intn(4))
+					inputs = append(inputs, v)
+					c.Monitor(v)
+				} else {
+					inputs[rng.Intn(len(inputs))].Set(rng.Intn(4))
+				}
+				want := 0
+				for _, v := range inputs {
+					if v.Get()%2 == 1 {
+						want++
+					}
+				}
+				if c.Get() != want {
+					fail("Counter = %d, %d of its %d inputs satisfy the condition", c.Get(), want, len(inputs))
+				}
+			}
+		}
+	}
+
+	// (4) DerivedSet: union of its current sources (overlapping sources, Replace, unsubscribing a source)
+	{
+		rng := rand.New(rand.NewSource(6))
+		for round := 0; round < 200; round++ {
+			a, b, c := NewSet[int](), NewSet[int](), NewSet[int]()
+			d := NewDerivedSet[int]()
+			unsubAB := d.InheritFrom(a, b)
+			d.InheritFrom(c)
+			srcs := []Set[int]{a, b, c}
+			active := []bool{true, true, true}
+			for step := 0; step < 12; step++ {
+				s := srcs[rng.Intn(3)]
+				switch rng.Intn(5) {
+				case 0, 1:
+					s.Add(rng.Intn(4))
+				case 2:
+					s.Delete(rng.Intn(4))
+				case 3:
+					s.Replace(ds.NewSet(rng.Intn(4), rng.Intn(4)))
+				case 4:
+					if active[0] && rng.Intn(3) == 0 {
+						unsubAB()
+						active[0], active[1] = false, false
+					}
+				}
+				want := map[int]bool{}
+				for i, src := range srcs {
+					if active[i] {
+						src.Range(func(e int) { want[e] = true })
+					}
+				}
+				got := d.ToSlice()
+				sort.Ints(got)
+				if len(got) != len(want) {
+					fail("DerivedSet holds %v, the union of its current sources is %v (a=%v b=%v c=%v, a/b subscribed: %v)", got, want, a.ToSlice(), b.ToSlice(), c.ToSlice(), active[0])
+				}
+				for _, e := range got {
+					if !want[e] {
+						fail("DerivedSet holds %v, the union of its current sources is %v", got, want)
+					}
+				}
+			}
+		}
+	}
+
+	// (5) SortedSet: ordered by current weight, heaviest / lightest at the ends (zero and negative weights, weight changes
+	// of removed elements, re-adding)
+	{
+		rng := rand.New(rand.NewSource(7))
+		for round := 0; round < 200; round++ {
+			ss := NewSortedSet(func(c *rpChain) Variable[int] { return c.weight })
+			var all []*rpChain
+			for i := 0; i < 4; i++ {
+				all = append(all, &rpChain{id: i, weight: NewVariable[int]().Init(rng.Intn(5) - 2)})
+			}
+			for step := 0; step < 12; step++ {
+				c := all[rng.Intn(len(all))]
+				switch rng.Intn(3) {
+				case 0:
+					ss.Add(c)
+				case 1:
+					ss.Delete(c)
+				case 2:
+					c.weight.Set(rng.Intn(5) - 2)
+				}
+				desc := ss.Descending()
+				asc := ss.Ascending()
+				if len(desc) != ss.Size() || len(asc) != len(desc) {
+					fail("SortedSet lists %d elements, the set holds %d", len(desc), ss.Size())
+				}
+				for i := range desc {
+					if asc[len(asc)-1-i] != desc[i] {
+						fail("Ascending() is not the reverse of Descending()")
+					}
+					if i > 0 && desc[i-1].weight.Get() < desc[i].weight.Get() {
+						fail("SortedSet.Descending() is not ordered by the current weights: position %d has weight %d, position %d has weight %d", i-1, desc[i-1].weight.Get(), i, desc[i].weight.Get())
+					}
+				}
+				if len(desc) == 0 {
+					if ss.HeaviestElement().Get() != nil || ss.LightestElement().Get() != nil {
+						fail("empty SortedSet has a heaviest / lightest element")
+					}
+				} else if ss.HeaviestElement().Get() != desc[0] || ss.LightestElement().Get() != desc[len(desc)-1] {
+					fail("SortedSet: HeaviestElement / LightestElement are not the ends of Descending() (%d elements, weights of the ends %d / %d)", len(desc), desc[0].weight.Get(), desc[len(desc)-1].weight.Get())
+				}
+			}
+		}
+	}
+
+	// (6) DerivedVariable of two inputs under concurrent writers: equals compute(inputs) once the writers have returned
+	{
+		for round := 0; round < 50; round++ {
+			x, y := NewVariable[int](), NewVariable[int]()
+			d := NewDerivedVariable2(func(_ int, a, b int) int { return a*1000 + b }, x, y)
+			var wg sync.WaitGroup
+			for w := 0; w < 2; w++ {
+				wg.Add(2)
+				go func(w int) { defer wg.Done(); for i := 1; i <= 50; i++ { x.Set(w*100 + i) } }(w)
+				go func(w int) { defer wg.Done(); for i := 1; i <= 50; i++ { y.Set(w*100 + i) } }(w)
+			}
+			wg.Wait()
+			if d.Get() != x.Get()*1000+y.Get() {
+				fail("DerivedVariable2 = %d after all writers returned, compute(inputs) = %d", d.Get(), x.Get()*1000+y.Get())
+			}
+		}
+	}
+}
+`
+	return "ds", "reactive", src, true
+}
+
+// the weight callback of a SortedSet record decides whether to take the set mutex by reading the record's unsubscribe
+// handle without the mutex, while addSorted stores that handle under the mutex: run under the race detector
+const replayC14Race = `package reactive
+
+// govc:race
+
+import (
+	"sync/atomic"
+	"testing"
+	"time"
+)
+
+type rpRaceChain struct{ weight Variable[int] }
+
+func TestVerifReplay(t *testing.T) {
+	for round := 0; round < 10; round++ {
+		ss := NewSortedSet(func(c *rpRaceChain) Variable[int] { return c.weight })
+		c := &rpRaceChain{weight: NewVariable[int]().Init(1)}
+		ss.Add(&rpRaceChain{weight: NewVariable[int]().Init(5)})
+		var stop atomic.Bool
+		doneA, doneB := make(chan struct{}), make(chan struct{})
+		go func() {
+			defer close(doneA)
+			for i := 0; !stop.Load(); i++ {
+				c.weight.Set(i%7 + 1)
+			}
+		}()
+		go func() {
+			defer close(doneB)
+			for !stop.Load() {
+				ss.Add(c)
+				ss.Delete(c)
+			}
+		}()
+		time.Sleep(100 * time.Millisecond)
+		stop.Store(true)
+		select {
+		case <-doneA:
+		case <-time.After(5 * time.Second):
+			t.Fatalf("REPLAY-VIOLATION the weight writer is blocked (deadlock with Add/Delete of the SortedSet)")
+		}
+		select {
+		case <-doneB:
+		case <-time.After(5 * time.Second):
+			t.Fatalf("REPLAY-VIOLATION Add/Delete of the SortedSet is blocked (deadlock with the weight writer)")
+		}
+	}
+}
+`
